@@ -16,12 +16,19 @@ fn main() {
 
 fn dispatch(prop: &str, tier: &str, seed: u64, rest: &[String]) -> i32 {
     let ev_tier = if tier == "thorough" { "thorough" } else { "quick" };
+    let hist = ["C03", "C04", "C05", "C06", "C10", "C11", "C12", "C13", "C14"].contains(&prop);
+    if tier == "replay" && !hist && prop.starts_with('C') && prop.len() == 3 {
+        return vh::report::generic_replay(prop, rest.first().map_or("", |s| s.as_str()));
+    }
     match prop {
         "C18" => {
             let mut rep = Report::new("C18", ev_tier, seed);
             let miri = rest.iter().any(|a| a == "--miri") || cfg!(miri);
             vh::panicmon::install();
             vh::c18::run(&mut rep, tier, miri);
+            if tier == "thorough" && !miri {
+                vh::san::miri_addon(&mut rep, vh::san::jobs("lookup", seed..seed + 8, &[]));
+            }
             if miri {
                 // a miri run only reports; the evidence file belongs to the native run
                 let bad = rep.violations.len();
@@ -33,29 +40,47 @@ fn dispatch(prop: &str, tier: &str, seed: u64, rest: &[String]) -> i32 {
         "C01" => {
             let mut rep = Report::new("C01", ev_tier, seed);
             vh::c01::run(&mut rep, tier);
+            if tier == "thorough" {
+                vh::san::asan_addon(&mut rep);
+            }
             rep.finish()
         }
         "C08" => {
             let mut rep = Report::new("C08", ev_tier, seed);
             vh::c08::run(&mut rep, tier);
+            if tier == "thorough" {
+                vh::san::asan_addon(&mut rep);
+            }
             rep.finish()
         }
         "C17" => {
             let mut rep = Report::new("C17", ev_tier, seed);
             vh::c17::run(&mut rep, tier);
+            if tier == "thorough" {
+                vh::san::asan_addon(&mut rep);
+            }
             rep.finish()
         }
         "C02" => {
             let mut rep = Report::new("C02", ev_tier, seed);
             vh::c02::run(&mut rep, tier);
+            if tier == "thorough" {
+                vh::san::asan_addon(&mut rep);
+                vh::san::miri_addon(&mut rep, vh::san::jobs("load", seed..seed + 12, &[]));
+            }
             rep.finish()
         }
+        "SAN-SELFTEST" => vh::san::selftest(),
+        "MIRI" => vh::san::part_main(tier, rest.first().and_then(|s| s.parse().ok()).unwrap_or(1), rest.get(1..).unwrap_or(&[])),
         "C02-WORKER" => vh::c02::worker_main(tier.parse().unwrap_or(0), rest[0].parse().unwrap_or(1), &rest[1], rest[2].parse().unwrap_or(1)),
         "C02-SINGLE" => vh::c02::single_main(tier),
         "C02-NEST" => vh::c02::nest_main(tier.parse().unwrap_or(10), rest.first().map_or("packages", |s| s.as_str())),
         "C09" => {
             let mut rep = Report::new("C09", ev_tier, seed);
             vh::c09::run(&mut rep, tier);
+            if tier == "thorough" {
+                vh::san::asan_addon(&mut rep);
+            }
             rep.finish()
         }
         "C07" => {
@@ -87,6 +112,14 @@ fn dispatch(prop: &str, tier: &str, seed: u64, rest: &[String]) -> i32 {
             vh::histprops::run(prop, &mut rep, tier);
             if prop == "C14" {
                 vh::c14perm::run(&mut rep, tier);
+            }
+            if tier == "thorough" {
+                match prop {
+                    "C03" => vh::san::miri_addon(&mut rep, vh::san::jobs("hist", seed..seed + 8, &[])),
+                    "C12" => vh::san::miri_addon(&mut rep, vh::san::jobs("hist", seed + 100..seed + 108, &[])),
+                    "C04" | "C05" | "C10" | "C13" | "C14" => vh::san::asan_addon(&mut rep),
+                    _ => {}
+                }
             }
             rep.finish()
         }
